@@ -1260,6 +1260,29 @@ def p_propertyDeclaration(p):
     p[0] = p[1]
 
 
+def _reference_value(value):
+    """
+    Return the value of a reference that is specified in MOF as a string
+    (an untyped WBEM URI) as a CIMInstanceName object if the string is an
+    instance path, or as a CIMClassName object if it is a class path.
+    Values that are not strings are returned unchanged.
+
+    Raises:
+      ValueError: The string is neither an instance path nor a class path.
+    """
+    if isinstance(value, str):
+        try:
+            return CIMInstanceName.from_wbem_uri(value)
+        except ValueError as exc:
+            inst_exc = exc
+        try:
+            return CIMClassName.from_wbem_uri(value)
+        except ValueError:
+            pass
+        raise inst_exc
+    return value
+
+
 def _declared_property(p, name, value, **kwargs):
     """
     Return the CIMProperty object for a property or reference declaration in
@@ -1267,6 +1290,8 @@ def _declared_property(p, name, value, **kwargs):
     CIMProperty; a default value that cannot be converted is a parse error.
     """
     try:
+        if kwargs.get('type') == 'reference':
+            value = _reference_value(value)
         return CIMProperty(name, value, **kwargs)
     except (ValueError, TypeError, OverflowError) as exc:
         raise MOFParseError(
@@ -2033,6 +2058,8 @@ def p_instanceDeclaration(p):
                                 pname, pval, cc.classname, cprop.is_array,
                                 ival_is_array, type(pval)),
                             parser_token=p)
+                if cprop.type == 'reference':
+                    pval = _reference_value(pval)
                 pprop.value = cimvalue(pval, cprop.type)
             inst.properties[pname] = pprop
         except (ValueError, TypeError, OverflowError) as ve:
